@@ -59,6 +59,10 @@ def gen_spec(r: apigen.Rng):
     if r.maybe(0.15): opts.append("python-gapic-namespace=foo.bar")
     if r.maybe(0.15): opts.append("warehouse-package-name=acme-pkg")
     spec["service_yaml"] = r.maybe(0.3)
+    # the async-REST experiment (publishing.library_settings[...].python_settings.experimental_features.rest_async_io_enabled)
+    spec["rest_async"] = (not spec["sub"]) and r.maybe(0.2)
+    if spec["rest_async"]:
+        spec["service_yaml"] = True
     spec["ads"] = r.maybe(0.12)
     if spec["ads"]:
         opts = [o for o in opts if not o.startswith("autogen")] + ["python-gapic-templates=ads-templates", "old-naming"]
@@ -105,16 +109,18 @@ def finding_specs():
                                          {"name": "labels", "kind": "repeated", "scalar": "string", "key": "string", "target": None, "required": False}],
                 "nested": False, "resource": False, "oneof": False}
     out = []
-    for variant in ("enum-keyword", "typing-name"):
+    for variant in ("enum-keyword", "typing-name", "async-rest-only"):
         pkg = "acme.lib.v1"
         f = {"name": "library", "pkg": pkg, "messages": [msg("Alpha")], "enums": [], "services": []}
         if variant == "enum-keyword":
             f["enums"].append({"name": "Mode", "values": ["MODE_UNSPECIFIED", "None"]})
-        else:
+        elif variant == "typing-name":
             f["messages"].append(msg("MutableSequence"))
         f["services"] = [{"name": "Library", "methods": [{"name": "GetAlpha", "kind": "unary", "io": (pkg, "Alpha"), "http": True, "sig": True}]}]
-        out.append({"pkg": pkg, "files": [f], "dep_pkg": False, "sub": None, "service_in_sub": False, "service_yaml": False, "ads": False,
-                    "opts": ["transport=grpc", "autogen-snippets=false"], "transport": ["grpc"]})
+        tr = "rest" if variant == "async-rest-only" else "grpc"
+        out.append({"pkg": pkg, "files": [f], "dep_pkg": False, "sub": None, "service_in_sub": False, "service_yaml": variant == "async-rest-only",
+                    "rest_async": variant == "async-rest-only", "ads": False,
+                    "opts": [f"transport={tr}", "autogen-snippets=false"], "transport": [tr]})
     return out
 
 
@@ -218,6 +224,8 @@ def service_yaml_path(spec):
     with open(p, "w") as fh:
         fh.write("type: google.api.Service\nconfig_version: 3\nname: lib.example.com\ntitle: Library API\n"
                  "apis:\n- name: google.longrunning.Operations\nhttp:\n  rules:\n  - selector: google.longrunning.Operations.GetOperation\n    get: '/v1/{name=operations/*}'\n")
+        if spec.get("rest_async"):
+            fh.write("publishing:\n  library_settings:\n  - version: %s\n    python_settings:\n      experimental_features:\n        rest_async_io_enabled: true\n" % spec["pkg"])
     return d, p
 
 
@@ -289,6 +297,8 @@ def run_case(ctx, spec, label):
             key = "import-error"
             mnames = {m["name"] for f in spec["files"] for m in f["messages"]}
             etxt = str(imp.get("errors") or imp)
+            if spec.get("rest_async") and "grpc" not in spec["transport"] and "transports.grpc_asyncio" in etxt and "ModuleNotFoundError" in etxt:
+                key = "import-error:async-rest-without-grpc"
             # (two symptoms of the one cause: the descriptor file is built before the class exists — built twice, or built without it)
             if mnames & {"MutableSequence", "MutableMapping"} and ("duplicate file name" in etxt or ("AttributeError" in etxt and ".types." in etxt and "has no attribute" in etxt)):
                 key = "import-error:message-named-like-typing-import"
@@ -300,6 +310,8 @@ def run_case(ctx, spec, label):
             want_keys = (["grpc"] if "grpc" in spec["transport"] else []) + (["rest"] if "rest" in spec["transport"] else [])
         else:
             want_keys = (["grpc", "grpc_asyncio"] if "grpc" in spec["transport"] else []) + (["rest"] if "rest" in spec["transport"] else [])
+            if spec.get("rest_async") and "rest" in spec["transport"]:
+                want_keys.append("rest_asyncio")
         for i, s in enumerate(svcs):
             reg, d_sync, d_async = out[1 + 3 * i], out[2 + 3 * i], out[3 + 3 * i]
             ctx.traces += 1
@@ -312,7 +324,7 @@ def run_case(ctx, spec, label):
             if reg["default"] != want_default:
                 ctx.fail("default-transport", f"{s.client_name} default transport {reg['default']}, expected {want_default}", payload)
             has_async = "raised" not in d_async
-            if not spec["ads"] and has_async != ("grpc" in spec["transport"]):
+            if not spec["ads"] and has_async != ("grpc" in spec["transport"] or bool(spec.get("rest_async"))):
                 ctx.fail("async-client", f"{s.async_client_name} present={has_async} for transports {spec['transport']}", payload)
             if not spec["ads"] and (reg["keys"] != mo["registry"] or has_async != mo["async_client"]):
                 ctx.disagree("T3:c01.registry", f"model registry {mo['registry']}/async {mo['async_client']} vs impl {reg['keys']}/{has_async}", payload)
